@@ -92,3 +92,11 @@ Proof. exact server_buffer_bounded. Qed.
 Theorem C03_client_buffer_bounded : forall p m M slave ops, Forall (op_ok M) ops ->
   len (rbuf (rst (run_ops p m (client_new p slave) ops))) < client_bound p + M.
 Proof. exact client_buffer_never_exceeds. Qed.
+
+(* the decoder's record of skipped bytes (written on every resynchronisation step, kept for the life of the connection):
+   at most 256 entries after ANY sequence of decoder calls, whatever each dropped and however it ended.  Nothing a decoder
+   returns depends on the record -- [decode_loop] does not take it.  (Tied to the code only through the heap meter: sustained
+   noise must not make live memory grow.) *)
+Theorem C03_skip_record_bounded : forall (calls : list (list N * dres (N * list N))) rec, len rec <= MAX_FRAME_LEN ->
+  len (fold_left (fun rc c => record_after rc (fst c) (snd c)) calls rec) <= MAX_FRAME_LEN.
+Proof. exact record_always_bounded. Qed.
